@@ -1,6 +1,6 @@
 """C20 - concurrent parses do not interfere with each other."""
 import os, shutil, threading, itertools, random
-import vlib, docs, inject
+import vlib, docs, inject, parsecmp
 from vlib import Sym
 from c19 import result_header, write_docs, nlines_of
 
@@ -36,14 +36,18 @@ class Scheduler(inject.Hook):
             self.turn = i; self.cv.notify_all()
             self.cv.wait_for(lambda: self.turn is None and (i in self.waiting or i in self.done), timeout=self.timeout)
 
-def run_schedule(d, thread_files, sched):
-    """thread_files: file name per thread; returns per thread ['ok', header] / ['err', cls]"""
+def whole_result(res):
+    """everything a parse call returns, in canonical form: headers, node rows, reference triples, lookup table and ids"""
+    return [result_header(res), parsecmp.canon_result(res)]
+
+def run_schedule(d, thread_files, sched, caller=None):
+    """thread_files: file name per thread; returns per thread ['ok', result] / ['err', cls]"""
     from opcua_tools.nodeset_parser import parse_xml_files
     n = len(thread_files); S = Scheduler(n); results = [None] * n
     def work(i):
         S.register(i)
         try:
-            res = parse_xml_files([os.path.join(d, thread_files[i])]); results[i] = ["ok", result_header(res)]
+            res = parse_xml_files([os.path.join(d, thread_files[i])], None if caller is None else list(caller)); results[i] = ["ok", whole_result(res)]
         except BaseException as e:
             results[i] = ["err", type(e).__name__]
         finally:
@@ -59,9 +63,9 @@ def run_schedule(d, thread_files, sched):
         for t in ths: t.join(timeout=30)
     return results
 
-def solo(d, name):
+def solo(d, name, caller=None):
     from opcua_tools.nodeset_parser import parse_xml_files
-    return ["ok", result_header(parse_xml_files([os.path.join(d, name)]))]
+    return ["ok", whole_result(parse_xml_files([os.path.join(d, name)], None if caller is None else list(caller)))]
 
 BLOCKS = 8
 def interleavings(n_threads, blocks):
@@ -77,12 +81,12 @@ def interleavings(n_threads, blocks):
 
 CORPUS = [[0,0,0,0,1,1,0,0,0,0,1,1,1,1,1,1], [0,0,0,1,1,1,1,1,1,1,1,0,0,0,0,0], [0,1,0,1,0,1,0,1,0,1,0,1,0,1,0,1], [0,0,1,1,0,0,1,1,0,0,1,1,0,0,1,1]]
 
-def judge(files_doc, thread_files, sched, work):
+def judge(files_doc, thread_files, sched, work, caller=None):
     d = os.path.join(work, "run"); shutil.rmtree(d, ignore_errors=True)
     write_docs(d, [(n, docs.render(doc, random.Random(1))) for n, doc in files_doc])
-    solos = {n: solo(d, n) for n, _ in files_doc}
+    solos = {n: solo(d, n, caller) for n, _ in files_doc}
     before = sorted(os.listdir(d))
-    res = run_schedule(d, thread_files, sched)
+    res = run_schedule(d, thread_files, sched, caller)
     after = sorted(os.listdir(d))
     out = [["solo"] if res[i] == solos[thread_files[i]] else ["bad", res[i][0], res[i][1] if res[i][0] == "err" else "other-data"] for i in range(len(thread_files))]
     fails = []
@@ -109,15 +113,17 @@ def check(ctx):
     da = docs.simple_doc(rng, "urn:a"); db = docs.simple_doc(rng, "urn:b", n_nodes=2, with_aliases=False)
     files_doc = [("a.xml", da), ("b.xml", db)]
     hdr = {"a.xml": 1, "b.xml": 2}; pth = {"a.xml": 0, "b.xml": 1}; nl = {"a.xml": nlines_of(da), "b.xml": nlines_of(db)}
-    sets = [["a.xml", "b.xml"], ["a.xml", "a.xml"], ["a.xml", "a.xml", "b.xml"]]
+    # the last set gives both calls the caller's namespace list [UA, urn:a, urn:b]: the two files then map the same local index ns=1 to
+    # different global indices while spelling their NodeIds alike - the situation in which anything shared between the calls shows
+    CALLER = [docs.UA, "urn:a", "urn:b"]
+    sets = [(["a.xml", "b.xml"], None), (["a.xml", "a.xml"], None), (["a.xml", "a.xml", "b.xml"], None), (["a.xml", "b.xml"], CALLER)]
     reqs = []; meta = []
     try:
-        for tf in sets:
+        for tf, caller in sets:
             if len(tf) == 2:
-                if ctx.quick() or tf[0] == tf[1]:
-                    allsch = list(interleavings(2, BLOCKS)) if not ctx.quick() else None
+                if ctx.quick() or tf[0] == tf[1] or caller:
                     scheds = [list(s) for s in CORPUS]
-                    k = 45 if ctx.quick() else (400 if tf[0] == tf[1] else 0)
+                    k = (45 if not caller else 25) if ctx.quick() else (400 if tf[0] == tf[1] else 600)
                     for _ in range(k):
                         s = [0] * BLOCKS + [1] * BLOCKS; rng.shuffle(s); scheds.append(s)
                 else:
@@ -128,13 +134,13 @@ def check(ctx):
                 for _ in range(25 if ctx.quick() else 300):
                     s = [0] * BLOCKS + [1] * BLOCKS + [2] * BLOCKS; rng.shuffle(s); scheds.append(s)
             for s in scheds:
-                out, left, fails = judge(files_doc, tf, s, work)
+                out, left, fails = judge(files_doc, tf, s, work, caller)
                 tail = [i for i in range(len(tf)) for _ in range(40)]
                 reqs.append([Sym("c20_blocks"), list(s) + tail, [[0, 1], [1, 2]], [[pth[n], nl[n]] for n in tf]])
                 meta.append((tf, s, out, left))
                 runs = [k for k, g in itertools.groupby(s)]
-                ctx.record(dict(threads=tf, schedule=s), len(runs) > len(tf), ["threads=" + ",".join(tf), "all-solo" if all(o[0] == "solo" for o in out) else "interference"])
-                for sig, detail in fails: ctx.fail(sig, dict(kind="schedule", threads=tf, schedule=s), detail)
+                ctx.record(dict(threads=tf, schedule=s, caller=caller), len(runs) > len(tf), ["threads=" + ",".join(tf) + (" with namespace list" if caller else ""), "all-solo" if all(o[0] == "solo" for o in out) else "interference"])
+                for sig, detail in fails: ctx.fail(sig, dict(kind="schedule", threads=tf, schedule=s, caller=caller), detail)
     finally:
         shutil.rmtree(work, ignore_errors=True)
     ans = vlib.run_model(reqs, shards=8)
@@ -157,7 +163,7 @@ def oracle_case(case):
     try:
         rng = random.Random(5)
         da = docs.simple_doc(rng, "urn:a"); db = docs.simple_doc(rng, "urn:b", n_nodes=2, with_aliases=False)
-        out, left, fails = judge([("a.xml", da), ("b.xml", db)], case["threads"], case["schedule"], work)
+        out, left, fails = judge([("a.xml", da), ("b.xml", db)], case["threads"], case["schedule"], work, case.get("caller"))
         return fails
     finally:
         shutil.rmtree(work, ignore_errors=True)
